@@ -315,8 +315,13 @@ class TenantWorld(object):
                     [{'kind': 'F5', 'what': 'duplicate-delivery'}]
                 events[-1]['faults'] = [f for f in events[-1]['faults'] if f['kind'] != 'F6']
                 events.append(dup)
+        extra = []
+        if prof.get('credit_grid'):
+            # a few more schedule objects from the parameter grids, swept at the end of the run
+            extra = [self.gen_credit(rng, 'x%d' % k) for k in range(4)]
         return {'world': 'tenants', 'profile': prof['name'], 'tenants': tenants, 'shared': shared,
-                'events': events, 'fault_free': fault_free, 'r3': rng.random() < prof.get('r3', 0.0)}
+                'events': events, 'fault_free': fault_free, 'r3': rng.random() < prof.get('r3', 0.0),
+                'extra_schedules': extra}
 
     def gen_credit(self, rng, gid):
         if self.profile.get('credit_grid') and rng.random() < 0.8:
@@ -1424,10 +1429,15 @@ class Run(object):
         """C17(a): built-in schedules, for attempt numbers >= 1: 1 at the first attempt, within
         [0, 1], never below LinearCredit's minimum, never increasing."""
         seen = set()
+        scheds = []
         for gid, g in self.graders.items():
-            if g is None or gid not in self.tenants:
-                continue
-            sched = g.config.get('attempt_based_credit')
+            if g is not None and gid in self.tenants:
+                scheds.append(g.config.get('attempt_based_credit'))
+        b = Builder(seams.Env('sched'))
+        for spec in self.j.get('extra_schedules', ()):
+            if 'cls' in spec.get('__credit__', {}):
+                scheds.append(b.decode(copy.deepcopy(spec)))
+        for sched in scheds:
             if sched is None or type(sched).__name__ not in ('LinearCredit', 'GeometricCredit', 'ReciprocalCredit'):
                 continue
             key = (type(sched).__name__, core.digest(sched.config))
